@@ -2,6 +2,7 @@
 Emitted `deserialize`, semantics part 4: a whole class.
 -/
 import SymbolVerif.Proofs.Codec.EmissionDesRun
+import SymbolVerif.Proofs.Codec.EmissionDesBase
 import SymbolVerif.Proofs.Codec.EmissionClass
 namespace SymbolVerif.Codec
 open SymbolVerif.Bytes
@@ -103,11 +104,12 @@ theorem emittedDeserialize_nobase (hwf : WF S = true) (hwgd : WFGD S = true) {na
     unfold emitDeserialize
     rw [hown, emitDesLoop_early S d (sizeMemberOf d) d.fields [] {} rfl rfl hnu]
     rfl
-  have hS0 : Sim ({ buffer := payload } : PyState) { buf := payload, origLen := payload.length } [] :=
+  have hS0 : Sim ({ buffer := payload } : PyState) { buf := payload, origLen := payload.length } [] [] :=
     ⟨rfl, (fun _ h => by cases h), (fun _ h => by cases h), (fun _ h => by cases h), (fun _ h => by cases h)⟩
   obtain ⟨σ, hex, hS, -, -⟩ := decFrom_sim (S := S) (T := T) (r := r) hnn hw.names hgd (sizeMemberOf d)
-    (sizeMember_iff hw hgd) d (fun st i => rebase_no_base d hbase st i) d.fields [] [] _ _ st 0 (by simp)
-    (by simpa using hw.fields) (by simpa using hw.covered) (by simpa [StructDef.noUnion] using hnu) hS0 rfl hst
+    (sizeMember_iff hw hgd) d (fun st i => rebase_no_base d hbase st i) [] d.fields [] [] _ _ st 0 (by simp)
+    (by simpa using hw.fields) (by simpa using hw.covered) (by simpa [StructDef.noUnion] using hnu)
+    (fun _ _ _ _ x hx => by cases hx) hS0 rfl hst
   unfold emittedDeserialize
   simp only [hbase, hitems, hex, bind, Except.bind]
   unfold objectOf at hvs
@@ -118,6 +120,270 @@ theorem emittedDeserialize_nobase (hwf : WF S = true) (hwgd : WFGD S = true) {na
       (fun f hf => by simpa using (List.mem_filter.mp hf).2)
       (fun x hx v hv => hS.loc x (by simpa using (List.mem_filter.mp hx).1) v hv) vs hvs
   rw [hsets]
+
+/-- the local `size_` of a class whose size member is called `size` -/
+theorem localName_size {f : Field} (h : f.name = "size") : localName f = "size_" := by
+  unfold localName; rw [h]; decide
+
+/-- a concrete class with a base class (no forward conditions): `Base._deserialize`, the window it returns, then the
+    class's own members in a fresh scope -/
+theorem emittedDeserialize_base (hwf : WF S = true) (hwgd : WFGD S = true) {name : String} {d : StructDef}
+    (hfind : S.find name = some (.struct d)) {a : String} (hbase : d.base = some a) (hnu : d.noUnion = true)
+    (hnn : ∀ ty b v, r.dec ty b = .ok v → v ≠ .none) {ty : String} {payload : Bytes} {v : Val}
+    (hdec : decConcrete S T r ty d payload = .ok v) :
+    emittedDeserialize S T r ty d payload = .ok v := by
+  have hw := wfStruct_iff (WF_struct hwf hfind)
+  have hgs := WFGD_struct hwgd hfind
+  have hgd := desFieldsOk_of hgs
+  obtain ⟨-, da, hfa, hab, htake⟩ := hw.base a hbase
+  have hwa := wfStruct_iff (WF_struct hwf hfa)
+  obtain ⟨hbn, huncond, -, -⟩ := hwa.abs hab
+  have hgda := desFieldsOk_of (WFGD_struct hwgd hfa)
+  have hown : ownFields d = d.fields.drop d.inherited := by unfold ownFields; simp [hbase]
+  have hsplit : d.fields = da.fields ++ ownFields d := by
+    rw [hown, ← htake]; exact (List.take_append_drop _ _).symm
+  have hownA : ownFields da = da.fields := by unfold ownFields; simp [hbn]
+  have hlen : da.fields.length ≤ d.inherited := by rw [← htake, List.length_take]; exact Nat.min_le_left _ _
+  have hrebA : ∀ st i, rebase da st i = st := fun st i => rebase_no_base da hbn st i
+  -- the own members mention own members only
+  have hvis : ∀ f ∈ ownFields d, ∀ n ∈ refsOf f, ∀ x ∈ da.fields, x.name ≠ n := by
+    have h1 : ownRefsOk d = true := by
+      unfold wfgdStruct at hgs
+      simp only [Bool.and_eq_true] at hgs
+      exact hgs.1
+    unfold ownRefsOk inheritedNames at h1
+    simp only [hbase, Option.isSome_some, if_true, htake, List.all_eq_true, Bool.not_eq_true'] at h1
+    intro f hf n hn x hx hxn
+    have h2 := h1 f hf n hn
+    have h3 : (da.fields.map (·.name)).contains n = true := by
+      rw [List.contains_iff_mem]
+      exact List.mem_map.mpr ⟨x, hx, hxn⟩
+    rw [h2] at h3
+    cases h3
+  -- the decoder: base members, then own members
+  unfold decConcrete at hdec
+  obtain ⟨st, hst, hdec⟩ := bind_eq_ok.mp hdec
+  obtain ⟨vs, hvs, hdec⟩ := bind_eq_ok.mp hdec
+  simp only [Except.ok.injEq] at hdec
+  subst hdec
+  unfold decFields at hst
+  have hst' : decFrom S T r d (da.fields ++ ownFields d) 0 { buf := payload, origLen := payload.length } = .ok st := by
+    rw [← hsplit]; exact hst
+  rw [decFrom_append] at hst'
+  obtain ⟨st1, hst1, hst2⟩ := bind_eq_ok.mp hst'
+  simp only [Nat.zero_add] at hst2
+  have hst1' : decFrom S T r da da.fields 0 { buf := payload, origLen := payload.length } = .ok st1 := by
+    rw [← decFrom_congr d da da.fields 0 _ (fun i st' _ hi => by
+      rw [rebase_before d st' (by omega), rebase_no_base da hbn])]
+    exact hst1
+  -- the run of `Base._deserialize`
+  have hitemsA : emitDeserialize S da =
+      da.fields.map (fun f => DesItem.field (desFieldAst S da (sizeMemberOf da) f none)) := by
+    unfold emitDeserialize
+    rw [hownA, emitDesLoop_early S da (sizeMemberOf da) da.fields [] {} rfl rfl (earlyFrom_uncond _ _ huncond)]
+    rfl
+  have hbaseRun : ∀ σ0 : PyState, σ0.buffer = payload →
+      ∃ σ1, execItems S T r (emitDeserialize S da) σ0 = .ok σ1 ∧ Sim σ1 st1 [] da.fields ∧
+        (∀ n, (∀ x ∈ da.fields, localName x ≠ n) → σ1.get n = σ0.get n) := by
+    intro σ0 hb0
+    have hS0 : Sim σ0 { buf := payload, origLen := payload.length } [] [] :=
+      ⟨hb0, (fun _ h => by cases h), (fun _ h => by cases h), (fun _ h => by cases h), (fun _ h => by cases h)⟩
+    obtain ⟨σ1, hex1, hS1, -, -, hfr1⟩ := decFrom_sim (S := S) (T := T) (r := r) hnn hwa.names hgda (sizeMemberOf da)
+      (sizeMember_iff hwa hgda) da hrebA [] da.fields [] [] σ0 _ st1 0 (by simp)
+      (by simpa using hwa.fields) (by simpa using hwa.covered) (by simpa using earlyFrom_uncond da.fields [] huncond)
+      (fun _ _ _ _ x hx => by cases hx) hS0 rfl hst1'
+    rw [hitemsA]
+    exact ⟨σ1, hex1, by simpa using hS1, hfr1⟩
+  obtain ⟨hol, hq1, hcase⟩ := base_run_window hrebA hwa.fields huncond hst1'
+  -- the window `(size_ - len(buffer), size_)`
+  have hwin : ∃ (σ1 : PyState) (e : Nat),
+      execItems S T r (emitDeserialize S da)
+        (if (ownFields da).any (·.name == "size") then ({ buffer := payload } : PyState)
+          else ({ buffer := payload } : PyState).set "size_" (.int (payload.length : Int))) = .ok σ1 ∧
+      Sim σ1 st1 [] da.fields ∧ σ1.getInt "size_" = .ok (e : Int) ∧ st1.buf <:+ payload.take e ∧
+      (rebase d st1 d.inherited).buf = st1.buf.drop (e - payload.length) := by
+    rcases hcase with ⟨f0, w, rest, hfs, hk0, hsv, hsuf, henv⟩ | ⟨hns, hsv, hsuf⟩
+    · have hf0 : f0 ∈ da.fields := by rw [hfs]; simp
+      have hname : f0.name = "size" := by
+        have := (hgda f0 hf0).2.2.1
+        unfold wfgdKind at this
+        simpa [hk0] using this
+      obtain ⟨σ1, hex1, hS1, -⟩ := hbaseRun
+        (if (ownFields da).any (·.name == "size") then ({ buffer := payload } : PyState)
+          else ({ buffer := payload } : PyState).set "size_" (.int (payload.length : Int))) (by split <;> rfl)
+      have h0 := decInt_unsigned_nonneg w payload
+      refine ⟨σ1, (decInt w false payload).toNat, hex1, hS1, ?_, hsuf, ?_⟩
+      · have := hS1.loc f0 hf0 _ henv
+        rw [localName_size hname] at this
+        unfold PyState.getInt
+        rw [this, Int.toNat_of_nonneg h0]
+      · unfold rebase
+        simp [hbase, hsv, hol]
+    · have hnosize : (ownFields da).any (·.name == "size") = false := by
+        rw [hownA, List.any_eq_false]
+        intro x hx hxn
+        simp only [beq_iff_eq] at hxn
+        have := (hgda x hx).2.2.1
+        unfold wfgdKind at this
+        cases hk : x.kind <;> simp [hk, hxn] at this
+        exact hns x hx _ hk
+      obtain ⟨σ1, hex1, hS1, hfr⟩ := hbaseRun (({ buffer := payload } : PyState).set "size_" (.int (payload.length : Int))) rfl
+      refine ⟨σ1, payload.length, ?_, hS1, ?_, by rw [List.take_length]; exact hsuf, ?_⟩
+      · simp only [hnosize, Bool.false_eq_true, if_false]; exact hex1
+      · have hfresh : ∀ x ∈ da.fields, localName x ≠ "size_" := by
+          intro x hx heq
+          obtain ⟨hmx, hnx, hkx, -⟩ := hgda x hx
+          have hxn : x.name = "size" :=
+            localName_inj (b := ⟨"size", .int 1 false, none⟩) hmx (by decide) hnx (by decide) (by rw [heq]; decide)
+          unfold wfgdKind at hkx
+          cases hk : x.kind <;> simp [hk, hxn] at hkx
+          exact hns x hx _ hk
+        unfold PyState.getInt
+        rw [hfr _ hfresh, PyState.get_set]
+        simp
+      · unfold rebase
+        simp [hsv]
+  obtain ⟨σ1, e, hex1, hS1, hsz, hsuf, hreb1⟩ := hwin
+  have hwindow : pySlice payload ((e : Int) - (σ1.buffer.length : Int)) (e : Int) = (rebase d st1 d.inherited).buf := by
+    rw [hS1.buf, window_slice payload e st1.buf hsuf, hreb1]
+  -- the members set on the instance by the base class
+  unfold objectOf at hvs
+  rw [hsplit, List.filter_append, List.mapM_append] at hvs
+  obtain ⟨vsA, hvsA, hvs⟩ := bind_eq_ok.mp hvs
+  obtain ⟨vsO, hvsO, hvs⟩ := bind_eq_ok.mp hvs
+  simp only [pure, Except.pure, Except.ok.injEq] at hvs
+  subst hvs
+  obtain ⟨ext, hext⟩ := decFrom_env d (ownFields d) da.fields.length st1 st hst2
+  have hsetsA : setsOf da σ1 = .ok vsA := by
+    unfold setsOf
+    rw [hownA]
+    refine setsOf_eq (fun f hf => (hgda f hf).2.2.1) _ (fun f hf => (List.mem_filter.mp hf).1)
+      (fun f hf => by simpa using (List.mem_filter.mp hf).2) (env := st.env) ?_ vsA hvsA
+    intro x hx v hv
+    have hxm : x ∈ da.fields := (List.mem_filter.mp hx).1
+    obtain ⟨v', hv'⟩ := Option.isSome_iff_exists.mp (hS1.has x hxm)
+    rw [hext, get_append_some hv'] at hv
+    simp only [Option.some.injEq] at hv
+    subst hv
+    exact hS1.loc x hxm _ hv'
+  -- the class's own members
+  unfold emittedDeserialize
+  simp only [hbase, hfa]
+  unfold emittedBaseDeserialize
+  simp only [hex1, hsetsA, hsz, bind, Except.bind, hwindow]
+  cases hownl : ownFields d with
+  | nil =>
+    rw [hownl] at hvsO
+    simp only [List.filter_nil, List.mapM_nil, pure, Except.pure, Except.ok.injEq] at hvsO
+    subst hvsO
+    unfold emitDeserialize setsOf
+    simp [hownl, emitDesLoop, execItems, pure, Except.pure]
+  | cons f rest =>
+    have hinh : d.inherited = da.fields.length := by
+      have h1 : da.fields.length = min d.inherited d.fields.length := by rw [← htake, List.length_take]
+      have h2 : d.fields.length = da.fields.length + (ownFields d).length := by rw [hsplit]; simp
+      rw [hownl] at h2
+      simp only [List.length_cons] at h2
+      omega
+    let d0 : StructDef := { d with base := none }
+    have hreb0 : ∀ st i, rebase d0 st i = st := fun st i => rebase_no_base d0 rfl st i
+    have hst2' : decFrom S T r d0 (ownFields d) d.inherited (rebase d st1 d.inherited) = .ok st := by
+      rw [← hinh, hownl] at hst2
+      rw [hownl]
+      unfold decFrom at hst2 ⊢
+      have hstep : decFieldStep S T r d0 (rebase d st1 d.inherited) d.inherited f =
+          decFieldStep S T r d st1 d.inherited f := by
+        unfold decFieldStep
+        rw [hreb0]
+      rw [hstep]
+      obtain ⟨stm, hm, hst2⟩ := bind_eq_ok.mp hst2
+      simp only [hm, bind, Except.bind]
+      rw [← decFrom_congr d d0 rest (d.inherited + 1) stm (fun i st' h1 _ => by
+        rw [hreb0]
+        unfold rebase
+        have : (i == d.inherited) = false := by simp only [beq_eq_false_iff_ne, ne_eq]; omega
+        simp [this])]
+      exact hst2
+    have hwf' : wfFieldsFrom S d [] (da.fields ++ ownFields d) = true := by rw [← hsplit]; exact hw.fields
+    have hcov' : coveredFrom S [] (da.fields ++ ownFields d) = true := by rw [← hsplit]; exact hw.covered
+    have hearly' : earlyFrom [] (da.fields ++ ownFields d) = true := by rw [← hsplit]; exact hnu
+    have hearlyO := earlyFrom_append da.fields [] (ownFields d) hearly'
+    have hSc : Sim ({ buffer := (rebase d st1 d.inherited).buf } : PyState) (rebase d st1 d.inherited) da.fields [] := by
+      refine ⟨rfl, (fun _ h => by cases h), (fun _ h => by cases h), ?_, (fun _ h => by cases h)⟩
+      intro nv hnv
+      rw [rebase_env] at hnv
+      obtain ⟨x, hx, hxn⟩ := hS1.names nv hnv
+      exact ⟨x, by simpa using hx, hxn⟩
+    obtain ⟨σ2, hex2, hS2, -, -, -⟩ := decFrom_sim (S := S) (T := T) (r := r) hnn hw.names hgd (sizeMemberOf d)
+      (sizeMember_iff hw hgd) d0 hreb0 da.fields (ownFields d) [] [] _ _ st d.inherited (by simpa using hsplit)
+      (by simpa using wfFieldsFrom_append da.fields [] (ownFields d) hwf')
+      (by simpa using coveredFrom_append da.fields [] (ownFields d) hcov')
+      (by simpa using hearlyO) hvis hSc (by rw [rebase_queued]; exact hq1) hst2'
+    have hitems : emitDeserialize S d =
+        (ownFields d).map (fun f => DesItem.field (desFieldAst S d (sizeMemberOf d) f none)) := by
+      unfold emitDeserialize
+      rw [emitDesLoop_early S d (sizeMemberOf d) (ownFields d) [] {} rfl rfl
+        (earlyFrom_hid da.fields (ownFields d) [] hvis (by simpa using hearlyO))]
+      rfl
+    have hsetsO : setsOf d σ2 = .ok vsO := by
+      unfold setsOf
+      refine setsOf_eq (fun f hf => (hgd f hf).2.2.1) _
+        (fun f hf => by rw [hsplit]; exact List.mem_append_right _ (List.mem_filter.mp hf).1)
+        (fun f hf => by simpa using (List.mem_filter.mp hf).2) (env := st.env) ?_ vsO hvsO
+      intro x hx v hv
+      exact hS2.loc x (by simpa using (List.mem_filter.mp hx).1) v hv
+    rw [hitems, hex2]
+    simp only [hsetsO]
+
+/-- a concrete class without forward conditions, with or without base class -/
+theorem emittedDeserialize_of_dec (hwf : WF S = true) (hwgd : WFGD S = true) {name : String} {d : StructDef}
+    (hfind : S.find name = some (.struct d)) (hnu : d.noUnion = true)
+    (hnn : ∀ ty b v, r.dec ty b = .ok v → v ≠ .none) {ty : String} {payload : Bytes} {v : Val}
+    (hdec : decConcrete S T r ty d payload = .ok v) :
+    emittedDeserialize S T r ty d payload = .ok v := by
+  cases hb : d.base with
+  | none => exact emittedDeserialize_nobase hwf hwgd hfind hb hnu hnn hdec
+  | some a => exact emittedDeserialize_base hwf hwgd hfind hb hnu hnn hdec
+
+/-- the interpreter's decoders never return `None` -/
+theorem recN_dec_ne_none (S : Schema) (T : String → Bytes → Bytes) : ∀ (n : Nat) (ty : String) (b : Bytes) (v : Val),
+    (recN S T n).dec ty b = .ok v → v ≠ .none := by
+  intro n
+  induction n with
+  | zero => intro ty b v h; cases h
+  | succ n ih =>
+    intro ty b v h
+    have h' : decTypeStep S T (recN S T n) ty b = .ok v := h
+    have hconc : ∀ ty' d', decConcrete S T (recN S T n) ty' d' b = .ok v → v ≠ .none := by
+      intro ty' d' hc
+      unfold decConcrete at hc
+      obtain ⟨st, -, hc⟩ := bind_eq_ok.mp hc
+      obtain ⟨vs, -, hc⟩ := bind_eq_ok.mp hc
+      simp only [Except.ok.injEq] at hc
+      rw [← hc]
+      intro hh; cases hh
+    unfold decTypeStep at h'
+    split at h'
+    · simp only [Except.ok.injEq] at h'; rw [← h']; intro hh; cases hh
+    · split at h'
+      · cases h'
+      · simp only [Except.ok.injEq] at h'; rw [← h']; intro hh; cases hh
+    · simp only at h'
+      split at h'
+      · simp only [Except.ok.injEq] at h'; rw [← h']; intro hh; cases hh
+      · cases h'
+    · split at h'
+      · obtain ⟨st, -, h'⟩ := bind_eq_ok.mp h'
+        obtain ⟨disc, -, h'⟩ := bind_eq_ok.mp h'
+        split at h'
+        · split at h'
+          · split at h'
+            · exact ih _ _ _ h'
+            · exact hconc _ _ h'
+          · exact ih _ _ _ h'
+        · cases h'
+      · exact hconc _ _ h'
+    · cases h'
 
 end
 end SymbolVerif.Codec
